@@ -20,7 +20,7 @@ func init() { Registry["C12"] = run }
 
 const defaultLen = 45
 
-const coqHeader = "From Kava Require Import Base.Prelude Model.Staking Model.Tally Model.Liquid Model.TallyTie."
+const coqHeader = "From Kava Require Import Base.Prelude Model.Staking Model.Tally Model.Liquid Model.TallyTie Model.LiquidMsg."
 
 type Hist struct {
 	Seed  uint64 `json:"seed"`
@@ -190,6 +190,22 @@ func genOp(r *Rng, s *snap, step, n int) Op {
 	case 6:
 		return Op{Kind: "endblock", Mature: r.Chance(1, 3)}
 	case 7: // mint
+		if r.Chance(1, 14) {
+			// a mint message paying with something else than the bond denom (a derivative the sender
+			// holds, when there is one), or the ordinary message through the message-level wrapper
+			if len(holds) > 0 && r.Chance(2, 3) {
+				p := holds[r.Intn(len(holds))]
+				v := p.i
+				if r.Chance(1, 2) {
+					v = pickVal(r, s)
+				}
+				return Op{Kind: "mintmsg", A: p.a, V: v, D: p.i, Amt: genAmount(r, s.dbal[p.a][p.i]).String()}
+			}
+			if len(dels) > 0 {
+				p := dels[r.Intn(len(dels))]
+				return Op{Kind: "mintmsg", A: p.a, V: p.i, D: -1, Amt: genAmount(r, tokensFor(s.vals[p.i], s.del[p.a][p.i])).String()}
+			}
+		}
 		if len(dels) > 0 && !r.Chance(1, 12) {
 			p := dels[r.Intn(len(dels))]
 			whole := tokensFor(s.vals[p.i], s.del[p.a][p.i])
@@ -197,6 +213,47 @@ func genOp(r *Rng, s *snap, step, n int) Op {
 		}
 		return Op{Kind: "mint", A: r.Intn(users), V: pickVal(r, s), Amt: fmt.Sprint(1 + r.Intn(100))}
 	case 8: // burn
+		if len(holds) > 0 && r.Chance(1, 4) {
+			// a burn message whose coin and validator field are chosen independently: the derivative
+			// of one validator while naming another one (preferably one with minted derivatives, so
+			// that the module has a delegation to take the shares from), the bond denom, or — through
+			// the same wrapper — the matching pair
+			p := holds[r.Intn(len(holds))]
+			var others []int
+			for i := 1; i < nVal; i++ {
+				if i != p.i && s.dsup[i].Sign() > 0 && s.del[aLiq][i] != nil {
+					others = append(others, i)
+				}
+			}
+			v, d := pickVal(r, s), p.i
+			switch r.Pick(70, 12, 10, 8) {
+			case 0:
+				if len(others) > 0 {
+					v = others[r.Intn(len(others))]
+				}
+			case 1:
+				v = p.i
+			case 2:
+				d = -1
+			default:
+			}
+			amt := genAmount(r, s.dbal[p.a][p.i])
+			if v != p.i && r.Chance(1, 2) {
+				// an amount both the holder and the module's delegation to the named validator cover
+				cover := new(big.Int).Quo(s.delOr0(aLiq, v), prec)
+				if cover.Cmp(s.dbal[p.a][p.i]) > 0 {
+					cover.Set(s.dbal[p.a][p.i])
+				}
+				if cover.Sign() > 0 {
+					amt = new(big.Int).Mod(r.BigBits(62), cover)
+					amt.Add(amt, big.NewInt(1))
+					if r.Chance(1, 3) {
+						amt.Set(cover)
+					}
+				}
+			}
+			return Op{Kind: "burnmsg", A: p.a, V: v, D: d, Amt: amt.String()}
+		}
 		if len(holds) > 0 && !r.Chance(1, 12) {
 			p := holds[r.Intn(len(holds))]
 			return Op{Kind: "burn", A: p.a, V: p.i, Amt: genAmount(r, s.dbal[p.a][p.i]).String()}
@@ -244,7 +301,14 @@ func genOp(r *Rng, s *snap, step, n int) Op {
 func scenario(r *Rng, st Setup) []Op {
 	one := "1.000000000000000000"
 	yes := func(a int) Vote { return Vote{Voter: a, Opts: []VoteOpt{{0, one}}} }
-	switch r.Intn(7) {
+	switch r.Intn(8) {
+	case 7: // two validators with minted derivatives; the holder of the (slashed) one's derivative names the other one
+		return []Op{{Kind: "delegate", A: 0, V: 1, Amt: "3000000"}, {Kind: "delegate", A: 1, V: 2, Amt: "3000000"},
+			{Kind: "slash", V: 1, Power: 2, Factor: "0.500000000000000000"},
+			{Kind: "mint", A: 0, V: 1, Amt: "400000"}, {Kind: "mint", A: 1, V: 2, Amt: "1000000"},
+			{Kind: "burnmsg", A: 0, V: 2, D: 1, Amt: fmt.Sprint(1 + r.Intn(400000))},
+			{Kind: "burnmsg", A: 1, V: 1, D: 2, Amt: fmt.Sprint(1 + r.Intn(400000))},
+			{Kind: "burnmsg", A: 1, V: 2, D: 2, Amt: "1000"}, {Kind: "mintmsg", A: 1, V: 2, D: 2, Amt: "1000"}}
 	case 0: // 7 % slash then repeated small mints
 		ops := []Op{{Kind: "delegate", A: 0, V: 1, Amt: "1000000007"}, {Kind: "slash", V: 1, Power: 1000 + bigOf(st.SelfDel[0]).Int64()/1_000_000, Factor: "0.070000000000000000"}}
 		for k := 0; k < 6; k++ {
@@ -346,7 +410,26 @@ func coqPlace(p string) string {
 	return "PEarn"
 }
 
+func coqDenom(d int) string {
+	if d < 0 {
+		return "DBond"
+	}
+	return "(DDeriv " + Nat(d) + ")"
+}
+
+// coqOp renders a message-level operation of Model/LiquidMsg.v
 func coqOp(op Op) string {
+	amt := Z(bigOf(op.Amt))
+	switch op.Kind {
+	case "mintmsg":
+		return fmt.Sprintf("MMintMsg %s %s %s %s", Nat(op.A), Nat(op.V), coqDenom(op.D), amt)
+	case "burnmsg":
+		return fmt.Sprintf("MBurnMsg %s %s %s %s", Nat(op.A), Nat(op.V), coqDenom(op.D), amt)
+	}
+	return "MPlain (" + coqPlainOp(op) + ")"
+}
+
+func coqPlainOp(op Op) string {
 	amt := Z(bigOf(op.Amt))
 	switch op.Kind {
 	case "delegate":
@@ -528,7 +611,7 @@ func runHist(seed uint64, idx, n int, st *Setup, ops []Op, cnt *Counters) (o run
 		}
 		prev = after
 	}
-	o.coq = fmt.Sprintf("mkHist2 %s\n  %s", header, List(steps))
+	o.coq = fmt.Sprintf("mkHist3 %s\n  %s", header, List(steps))
 	return
 }
 
@@ -554,6 +637,16 @@ func splits(op Op, r result, b, a *snap, seen map[string]bool, cnt *Counters) {
 			cnt.Inc("split:" + k)
 		}
 	}
+	if (op.Kind == "mintmsg" || op.Kind == "burnmsg") && inRangeU(op.A) && inRangeV(op.V) && inRangeV(op.D) && op.D != op.V && r.cls != ClassOk {
+		if op.Kind == "burnmsg" && b.dsup[op.V].Sign() > 0 && b.dbal[op.A][op.D].Cmp(bigOf(op.Amt)) >= 0 && bigOf(op.Amt).Sign() > 0 &&
+			b.delOr0(aLiq, op.V).Cmp(new(big.Int).Mul(bigOf(op.Amt), prec)) >= 0 {
+			mark("burnmsg:other-validator-with-derivatives-refused")
+		}
+		if op.Kind == "mintmsg" {
+			mark("mintmsg:derivative-denom-refused")
+		}
+	}
+	op = plainKind(op)
 	switch op.Kind {
 	case "mint", "burn":
 		if !inRangeU(op.A) || !inRangeV(op.V) {
@@ -670,6 +763,19 @@ var allSplits = []string{
 	"slash:burned", "endblock:bonded->unbonding", "endblock:unbonding->unbonded", "endblock:unbonding->bonded", "undelegate:operator-jailed", "redelegate:ok",
 	"tally:derivative-in-wallet", "tally:derivative-in-savings", "tally:derivative-in-earn", "tally:derivative-of-non-bonded-validator",
 	"tally:validator-votes", "tally:delegator-votes", "tally:weighted-vote", "tally:passes",
+	"burnmsg:other-validator-with-derivatives-refused", "mintmsg:derivative-denom-refused",
+}
+
+// plainKind: a message-level mint / burn whose denom is the one every ordinary client sends is the
+// plain operation (the monitors and case splits of mint / burn apply to it)
+func plainKind(op Op) Op {
+	if op.Kind == "burnmsg" && op.D == op.V {
+		op.Kind = "burn"
+	}
+	if op.Kind == "mintmsg" && op.D == -1 {
+		op.Kind = "mint"
+	}
+	return op
 }
 
 func shrinkFailure(seed uint64, idx int, st Setup, ops []Op, f Failure) Failure {
@@ -702,7 +808,7 @@ func run(o Opts) (*Result, error) {
 		n = defaultLen
 	}
 	res := &Result{Property: "C12", Seed: o.Seed,
-		Rule: "histories of " + fmt.Sprint(n) + " operations (staking messages, slash/jail, end blocker, liquid mint/burn, derivative transfers and savings/earn custody, governance tallies) generated from splitmix64(seed, history index) on a fresh app.TestApp with three extra validators; a history is non-trivial when it contains a successful mint or burn on a validator whose exchange rate is not one, or a tally with derivative-holding voters; distinct by hash of setup and operation list"}
+		Rule: "histories of " + fmt.Sprint(n) + " operations (staking messages, slash/jail, end blocker, liquid mint/burn incl. messages whose coin denom and validator field disagree, derivative transfers and savings/earn custody, governance tallies) generated from splitmix64(seed, history index) on a fresh app.TestApp with three extra validators; a history is non-trivial when it contains a successful mint or burn on a validator whose exchange rate is not one, or a tally with derivative-holding voters; distinct by hash of setup and operation list"}
 	cnt := NewCounters()
 
 	if o.Replay != "" {
@@ -718,7 +824,7 @@ func run(o Opts) (*Result, error) {
 			return nil, fmt.Errorf("replay file has no setup")
 		}
 		ro := runHist(h.Seed, h.Idx, 0, &h.Setup, h.Ops, cnt)
-		name, err := WriteShard(o.OutDir, 0, coqHeader, []string{ro.coq}, "mismatches2")
+		name, err := WriteShard(o.OutDir, 0, coqHeader, []string{ro.coq}, "mismatches3")
 		if err != nil {
 			return nil, err
 		}
@@ -769,7 +875,7 @@ func run(o Opts) (*Result, error) {
 		if len(cases) == 0 {
 			return nil
 		}
-		name, err := WriteShard(o.OutDir, shard, coqHeader, cases, "mismatches2")
+		name, err := WriteShard(o.OutDir, shard, coqHeader, cases, "mismatches3")
 		if err != nil {
 			return err
 		}
